@@ -161,12 +161,21 @@ func (s *pstate) assume(cond ssa.Value, val bool) bool {
 		c := kb.Value.String()
 		k := s.vkey(a)
 		old := s.facts[k]
+		// a fact is "=c" or "!=c1,c2,..." (the values excluded so far)
+		excluded := func() []string {
+			if strings.HasPrefix(old, "!=") {
+				return strings.Split(old[2:], ",")
+			}
+			return nil
+		}
 		if eq {
 			if strings.HasPrefix(old, "=") && old != "="+c {
 				return false
 			}
-			if old == "!="+c {
-				return false
+			for _, e := range excluded() {
+				if e == c {
+					return false
+				}
 			}
 			s.facts[k] = "=" + c
 		} else {
@@ -174,7 +183,17 @@ func (s *pstate) assume(cond ssa.Value, val bool) bool {
 				return false
 			}
 			if !strings.HasPrefix(old, "=") {
-				s.facts[k] = "!=" + c
+				ex := excluded()
+				have := false
+				for _, e := range ex {
+					if e == c {
+						have = true
+					}
+				}
+				if !have {
+					ex = append(ex, c)
+				}
+				s.facts[k] = "!=" + strings.Join(ex, ",")
 			}
 		}
 		return true
